@@ -57,6 +57,8 @@ var extElems = []struct {
 }{
 	{9999, 1, ipfix.Uint32}, {9999, 2, ipfix.String}, {9999, 3, ipfix.Ipv6Address}, {9999, 4, ipfix.OctetArray},
 	{9999, 5, ipfix.Boolean}, {9999, 6, ipfix.Int64}, {9999, 7, ipfix.MacAddress}, {31337, 100, ipfix.Uint8},
+	// no IANA element of the built-in table is signed8 / signed16 / signed32 / float32
+	{9999, 8, ipfix.Int8}, {9999, 9, ipfix.Int16}, {9999, 10, ipfix.Int32}, {9999, 11, ipfix.Float32},
 }
 
 var (
